@@ -5,7 +5,7 @@
    (mailbox, uid, SELECT instance).  Only statements. *)
 From PV Require Import Base.Prelude Wire.SeqSet.
 From PV Require Import UidRecent.Model UidRecent.MapLemmas UidRecent.UidProofs
-  UidRecent.RecentInv UidRecent.RecentProofs UidRecent.Witness.
+  UidRecent.RecentInv UidRecent.RecentProofs UidRecent.RecentTrace UidRecent.Witness.
 
 Local Open Scope N_scope.
 
@@ -86,6 +86,34 @@ Theorem C17_first_rw_select_claims : forall st s nm ch i b,
     forall m, In m (b_msgs b') -> m_recent m = false.
 Proof. exact first_rw_select_claims. Qed.
 Print Assumptions C17_first_rw_select_claims.
+
+(* the arrival clause over whole histories: the stored bit survives any
+   history in which nobody SELECTs that mailbox read-write ... *)
+Theorem C17_stored_recent_survives_run : forall i tr st b m,
+  full st -> no_rw_select i st tr ->
+  lookup i (boxes st) = Some b -> In m (b_msgs b) -> m_recent m = true ->
+  exists b', lookup i (boxes (run st tr)) = Some b' /\
+             forall m', In m' (b_msgs b') -> m_uid m' = m_uid m -> m_recent m' = true.
+Proof. exact stored_recent_survives_run. Qed.
+Print Assumptions C17_stored_recent_survives_run.
+
+(* ... and the first read-write SELECT (any connection, any name denoting the
+   mailbox) then counts it in RECENT, holds it (FETCH shows it \Recent to that
+   connection) and clears every stored bit, if the message still exists *)
+Theorem C17_arrival_claimed_by_first_rw_select : forall i tr st b m s nm ch b' m',
+  full st -> no_rw_select i st tr ->
+  lookup i (boxes st) = Some b -> In m (b_msgs b) -> m_recent m = true ->
+  find_box (run st tr) nm = Some (i, b') -> In m' (b_msgs b') -> m_uid m' = m_uid m ->
+  let st2 := fst (step (run st tr) (Select s nm false) ch) in
+  exists sl' b2,
+    snd (step (run st tr) (Select s nm false) ch)
+      = OSelect i false (nlen (b_msgs b')) (nlen (stored_recent b')) (b_max b' + 1) /\
+    lookup s (sess st2) = Some sl' /\ s_ro sl' = false /\ s_bid sl' = i /\
+    In (m_uid m) (s_recent sl') /\ In (m_uid m) (s_view sl') /\
+    (0 < nlen (stored_recent b')) /\
+    lookup i (boxes st2) = Some b2 /\ forall x, In x (b_msgs b2) -> m_recent x = false.
+Proof. exact arrival_claimed_by_first_rw_select. Qed.
+Print Assumptions C17_arrival_claimed_by_first_rw_select.
 
 (* RECENT counts: a sync announces a count exactly when it differs from the
    one announced before and remembers it; the remembered count is, in every
